@@ -10,11 +10,30 @@ from ._s import run_spec
 from .seqreplay import replay_history
 
 
+def _related_pids():
+    """Two pids x = 'a' + suffix and y = 'a' such that (1) concatenations collide: x + 'c' == y + suffix + 'c', and (2) the
+    SHA-256 digests of x and y share their first four hex digits, i.e. with the default layout the two pids' metadata and
+    pid-reference files live under the same two upper shard directories."""
+    import hashlib
+    import itertools
+    import string
+    want = hashlib.sha256(b"a").hexdigest()[:4]
+    for n in (1, 2, 3, 4):
+        for t in itertools.product(string.ascii_lowercase + string.digits, repeat=n):
+            sfx = "".join(t)
+            if hashlib.sha256(("a" + sfx).encode()).hexdigest()[:4] == want:
+                return "a" + sfx, "a", sfx
+    raise AssertionError
+
+
+_X, _Y, _SFX = _related_pids()
+
+
 class C11Spec(ModelSpec):
     prop = "C11"
-    pids = ("ab", "a")
-    formats = ("c", "bc")
-    init_ops = (("store", "ab", "A", None), ("store", "a", "A", None))
+    pids = (_X, _Y)
+    formats = ("c", _SFX + "c")
+    init_ops = (("store", _X, "A", None), ("store", _Y, "A", None))
     docs = {"v1": b"<v1/>", "v2": pattern(3 * 4096 + 7, 9)}
 
     def __init__(self, tier):
@@ -22,7 +41,7 @@ class C11Spec(ModelSpec):
         self.key_dirs = False  # the metadata code treats absent and empty directories alike; C05 thorough keeps them
         ops = []
         for pid in self.pids:
-            for fmt in (None, DEFAULT_NS, "c", "bc"):
+            for fmt in (None, DEFAULT_NS, "c", _SFX + "c"):
                 ops.append(("store_meta", pid, fmt, "v1"))
                 if tier == "thorough" or fmt in (None, "c"):
                     ops.append(("store_meta", pid, fmt, "v2"))
